@@ -164,6 +164,27 @@ Section PSetProofs.
     inversion H; subst. apply IH; auto using add_counted_sound.
   Qed.
 
+  (* reads of missing keys (defaultdict) keep the tables sound *)
+  Lemma touch_sound Q d t : tbl_sound Q d -> tbl_sound Q (touch d t).
+  Proof.
+    unfold touch. destruct (has_key d t); auto. intros Hd k l H p Hp.
+    apply in_app_iff in H. destruct H as [H|[H|[]]]; [eapply Hd; eauto|]. inversion H; subst. contradiction.
+  Qed.
+
+  Definition pop_ok (o : pop) : Prop :=
+    match o with PAdd b x => op_ok (b, x) | _ => True end.
+
+  Lemma run_pops_sound ops : Forall pop_ok ops -> state_sound (run_pops sub ops).
+  Proof.
+    unfold run_pops. assert (G : state_sound empty_state) by (split; intros k l []).
+    revert G. generalize empty_state. induction ops as [|o ops IH]; intros s G H; cbn [fold_left]; auto.
+    inversion H as [|? ? Ho Hr]; subst. apply IH; auto.
+    destruct o as [b x|t|t]; cbn [step_pop].
+    - apply add_counted_sound; auto.
+    - destruct G. split; cbn [s_prims s_terms]; auto using touch_sound.
+    - destruct G. split; cbn [s_prims s_terms]; auto using touch_sound.
+  Qed.
+
   Lemma lookup_in d t p : In p (lookup d t) -> exists l, In (t, l) d /\ In p l.
   Proof.
     induction d as [|[k l] d IH]; cbn [lookup]; [contradiction|].
@@ -177,6 +198,16 @@ Section PSetProofs.
     let s := build sub ops in pset_ok sub (mkpset (s_prims s) (s_terms s) r rn rd).
   Proof.
     intros H s. destruct (build_sound ops H) as [HP HT]. fold s in HP, HT.
+    split; intros t p Hin; unfold prims, terms in Hin; cbn [p_prims p_terms] in Hin;
+      apply lookup_in in Hin; destruct Hin as (l & H1 & H2).
+    - destruct (HP _ _ H1 _ H2). auto.
+    - destruct (HT _ _ H1 _ H2). auto.
+  Qed.
+
+  Theorem run_pops_pset_ok ops r rn rd : Forall pop_ok ops ->
+    let s := run_pops sub ops in pset_ok sub (mkpset (s_prims s) (s_terms s) r rn rd).
+  Proof.
+    intros H s. destruct (run_pops_sound ops H) as [HP HT]. fold s in HP, HT.
     split; intros t p Hin; unfold prims, terms in Hin; cbn [p_prims p_terms] in Hin;
       apply lookup_in in Hin; destruct Hin as (l & H1 & H2).
     - destruct (HP _ _ H1 _ H2). auto.
